@@ -14,6 +14,7 @@
 //	         cell); the projected observation is the ordered partition (cells as sets) after
 //	         every refinement and is compared with refine_run of the extracted model; the raw
 //	         order:dividers is the strict part
+//	mode x, k : see harden.go (provenance, reuse, aliasing, hidden state; vertex classes)
 //	tok    : a relabelling "p0,p1,...,p(n-1)" (the copy h has h(i,j) = g(p_i,p_j)), or "all"
 //	         (all n! relabellings), or "rand:<seed>:<count>" (count relabellings from splitmix64(seed))
 //
@@ -636,6 +637,12 @@ func exec(line string) hx.Result {
 	if mode == "r" {
 		return execRefine(fam, f[1], strings.Fields(f[2]))
 	}
+	if mode == "x" {
+		return execX(fam, f[1], strings.Fields(f[2]), line)
+	}
+	if mode == "k" {
+		return execK(fam, f[1], strings.Fields(f[2]), line)
+	}
 	return execGraph(mode, fam, f[1], strings.Fields(f[2]))
 }
 
@@ -998,6 +1005,9 @@ func gen(g *hx.Gen) {
 		}
 		emitB("circulant", gr.Relabel(g.Rng.Perm(n)), volTok(), 150)
 	}
+
+	// hardening pass: provenance, reuse, aliasing, hidden state, vertex classes, sizes beyond 70
+	genHarden(g)
 
 	if !g.Thorough() {
 		// one representative of every isomorphism class on 7 vertices x all 5040 relabellings
